@@ -208,6 +208,21 @@ func c12Ops() []c12Op {
 			out, err := j.MarshalDocument(&j.Document{Data: r}, u)
 			return strings.ReplaceAll(string(out), name, "views") + fmt.Sprint(err)
 		}},
+		// a collection well beyond any small-input fast path (one member ill-typed: the call must refuse)
+		{"UnmarshalDocument(collection of 40)", func(s *j.Schema) string {
+			var ms []string
+			for i := 0; i < 40; i++ {
+				ms = append(ms, fmt.Sprintf(`{"type":"a","id":"m%d","attributes":{"x":"v%d","y":%d}}`, i, i, i))
+			}
+			d, err := j.UnmarshalDocument([]byte(`{"data":[`+strings.Join(ms, ",")+`]}`), s)
+			if err != nil {
+				return "error: " + err.Error()
+			}
+			out := fmt.Sprint(d.Data.(j.Collection).Len(), ";")
+			ms[3] = `{"type":"a","id":"bad","attributes":{"y":"not a number"}}`
+			_, err = j.UnmarshalDocument([]byte(`{"data":[`+strings.Join(ms, ",")+`]}`), s)
+			return out + fmt.Sprint(err != nil)
+		}},
 		// a request that sends back the very document it received (the marshaler writes the
 		// self link into the document's own Links map)
 		c12Echo("a", `{"data":{"type":"a","id":"1","attributes":{"x":"v"}},"meta":{"m":1}}`, "/a/1"),
@@ -536,9 +551,11 @@ func C12RaceWorker() {
 	c12FreshTypes = true
 	ops := c12Ops()
 	for _, order := range []int{0, 3, 5} {
-		s := c12Schema(order)
 		for _, g := range []int{2, 4, 16} {
 			for a := 0; a < len(ops); a++ {
+				// a schema nobody has used yet for every group: what an operation does lazily on
+				// first use (fill a cache, materialise a zero value) is done by several goroutines at once
+				s := c12Schema(order)
 				var wg sync.WaitGroup
 				start := make(chan struct{})
 				for k := 0; k < g; k++ {
@@ -629,7 +646,7 @@ func init() {
 	_ = sort.Strings
 	Register(&Prop{
 		ID: "C12",
-		Rule: "Engine C (cooperative scheduler over the yield points the instrumenter puts before every statement) + snapshot monitor. Shared schema: a struct-backed type, a soft type with a two-way relationship to it, and a soft type with nil maps, in every order of the three types, built through AddType or assembled by hand from a list of types. 20 operations with private inputs (new resources through the schema's own Types elements, two requests that echo the document they received, 4 URL parses incl. a JSON and/or filter tree, wrapping and marshaling a handler's own view struct that is not in the schema - in the free-running pass a struct type never seen before on every call -, 2 document unmarshals, 2 partial unmarshals, Type.New()+Set for each type, marshaling an own document, HasType, GetType, Check, Rels). (1) every operation x 6 type orders run alone with the deep snapshot of the schema recomputed after EVERY statement (a change = a shared write, attributed to the function); (2) every operation against 6 representative operations on 2 threads (thorough: every ordered pair) and every triple of 3 (thorough 6) representative operations on 3 threads: ALL schedules with scheduling points at function entries and <= 1 preemption (thorough: <= 2), each thread's result compared with its solo result, schema snapshot unchanged; thorough adds statement-granularity schedules for 10 query-vs-parser pairs; (3) every ordered pair of operations run in sequence from the state the first one leaves (state count must stay 1); (4) a separate free-running pass of the same operation bodies under the Go race detector (2, 4, 16 goroutines). By the lemma in DESIGN.md 2.4, no write step in any solo run => no interleaving of any number of such threads contains one. Non-trivial = schedule with at least one context switch / monitored solo run",
+		Rule: "Engine C (cooperative scheduler over the yield points the instrumenter puts before every statement) + snapshot monitor. Shared schema: a struct-backed type, a soft type with a two-way relationship to it, and a soft type with nil maps, in every order of the three types, built through AddType or assembled by hand from a list of types. 21 operations with private inputs (a document holding a collection of 40, new resources through the schema's own Types elements, two requests that echo the document they received, 4 URL parses incl. a JSON and/or filter tree, wrapping and marshaling a handler's own view struct that is not in the schema - in the free-running pass a struct type never seen before on every call -, 2 document unmarshals, 2 partial unmarshals, Type.New()+Set for each type, marshaling an own document, HasType, GetType, Check, Rels). (1) every operation x 6 type orders run alone with the deep snapshot of the schema recomputed after EVERY statement (a change = a shared write, attributed to the function); (2) every operation against 6 representative operations on 2 threads (thorough: every ordered pair) and every triple of 3 (thorough 6) representative operations on 3 threads: ALL schedules with scheduling points at function entries and <= 1 preemption (thorough: <= 2), each thread's result compared with its solo result, schema snapshot unchanged; thorough adds statement-granularity schedules for 10 query-vs-parser pairs; (3) every ordered pair of operations run in sequence from the state the first one leaves (state count must stay 1); (4) a separate free-running pass of the same operation bodies under the Go race detector (2, 4, 16 goroutines, every group on a schema nobody has used yet). By the lemma in DESIGN.md 2.4, no write step in any solo run => no interleaving of any number of such threads contains one. Non-trivial = schedule with at least one context switch / monitored solo run",
 		Assumptions: []string{"an unsynchronised write that stores an unchanged value is invisible to the snapshot monitor; it is left to the permuted type orders and to the free-running -race pass (supporting evidence)", "memory-model effects below statement granularity are not modelled"},
 		Harnesses: []Harness{
 			{Name: "C12/solo-monitor", Body: c12Solo},
